@@ -49,10 +49,13 @@ VARIABLES
   buf,       \* per thread: it -> chunk size of its buffered iterator (0 = none)
   nops,      \* per thread: calls made
   mon,       \* it -> Props monitor
+  own,       \* consuming kinds (vec, array): [slot: position -> "in" | "out" (element still owned by the storage or
+             \*   moved out / dropped), heap: bytes of the consumed collection's buffer still allocated,
+             \*   expd: per thread, the values whose destructor the machinery runs in the current step]
   h          \* history: [sched: sequence of worker ids, prog: per-thread programs]
 
-vars == <<cf, counter, alive, pc, op, tk, left, res, buf, nops, mon, h>>
-view == <<cf, counter, alive, pc, op, tk, left, res, buf, nops, mon>>
+vars == <<cf, counter, alive, pc, op, tk, left, res, buf, nops, mon, own, h>>
+view == <<cf, counter, alive, pc, op, tk, left, res, buf, nops, mon, own>>
 
 Workers == 1..cf.nt
 T == 0..cf.nt                 \* 0 = the owning thread (sequential phases)
@@ -117,6 +120,38 @@ ItemOf(b, withIdx) == IF b < cf.len THEN RItem(IF withIdx THEN b ELSE -1, b) ELS
 LenOf(c) == IF c < cf.len THEN cf.len - c ELSE 0
 
 (***************************************************************************)
+(* Ownership of the elements of a consumed vector / array (C08, C15).        *)
+(* take_one moves one element out; a chunk (TakenSlice) owns its reserved    *)
+(* positions: what the caller consumes is moved out, the rest is dropped     *)
+(* with the chunk; Drop drops the positions from the counter to the end and  *)
+(* (vector) frees the buffer; into_seq_iter moves the same positions into a  *)
+(* new vector, of which the caller consumes a prefix and the rest is dropped.*)
+(***************************************************************************)
+OwnApplies == cf.kind \in {"vec", "array"}
+OwnInit(c) == [slot |-> [p \in 0..(c.len - 1) |-> "in"],
+               heap |-> IF c.kind = "vec" THEN 8 * c.len ELSE 0,
+               expd |-> [t \in 0..c.nt |-> << >>]]
+\* positions lo..hi-1 as a sequence
+Span(lo, hi) == [j \in 1..(IF hi > lo THEN hi - lo ELSE 0) |-> lo + (j - 1)]
+RECURSIVE DropAll(_, _, _)
+DropAll(m, ps, j) == IF j > Len(ps) THEN m ELSE DropAll(MDropElem(m, cf.base + ps[j], TRUE), ps, j + 1)
+\* thread t takes the positions `moved` and the machinery drops the positions `dropped` (sequences), iterator i
+OwnStep(t, i, moved, dropped, freeBuf) ==
+  IF ~OwnApplies THEN own' = own /\ UNCHANGED mon
+  ELSE /\ own' = [own EXCEPT
+                    !.slot = [p \in DOMAIN @ |-> IF p \in Range(moved) \cup Range(dropped) THEN "out" ELSE @[p]],
+                    !.heap = IF freeBuf THEN 0 ELSE @,
+                    !.expd[t] = @ \o [j \in 1..Len(dropped) |-> cf.base + dropped[j]]]
+       /\ mon' = [mon EXCEPT ![i] = DropAll(@, dropped, 1)]
+\* the same when the action also updates the monitor (visits): m is the monitor after those updates
+OwnStepM(t, i, m, moved, dropped) ==
+  IF ~OwnApplies THEN own' = own /\ mon' = [mon EXCEPT ![i] = m]
+  ELSE /\ own' = [own EXCEPT
+                    !.slot = [p \in DOMAIN @ |-> IF p \in Range(moved) \cup Range(dropped) THEN "out" ELSE @[p]],
+                    !.expd[t] = @ \o [j \in 1..Len(dropped) |-> cf.base + dropped[j]]]
+       /\ mon' = [mon EXCEPT ![i] = DropAll(m, dropped, 1)]
+
+(***************************************************************************)
 (* Actions                                                                  *)
 (***************************************************************************)
 Sched(t) == h' = IF t = 0 THEN h ELSE [h EXCEPT !.sched = Append(@, t)]
@@ -143,7 +178,7 @@ CallBody(t, o) ==
   /\ res' = [res EXCEPT ![t] = IF o.k = "fold" THEN [k |-> "fold", vals |-> << >>] ELSE RUnit]
   /\ buf' = [buf EXCEPT ![t][o.it] = IF o.k = "bnew" THEN o.n ELSE IF o.k = "bdrop" THEN 0 ELSE @]
   /\ h' = [h EXCEPT !.sched = IF t = 0 THEN @ ELSE Append(@, t), !.prog[t] = Append(@, o)]
-  /\ UNCHANGED <<cf, counter, alive, tk>>
+  /\ UNCHANGED <<cf, counter, alive, tk, own>>
 
 Call(t, o) ==
   /\ o \in Ops
@@ -176,23 +211,24 @@ FetchAdd(t) ==
      IN
      /\ counter' = [counter EXCEPT ![i] = Wrap(b + n)]
      /\ tk' = [tk EXCEPT ![t] = b]
-     /\ CASE k = "next" ->
-               /\ res' = [res EXCEPT ![t] = ItemOf(b, FALSE)]
+     /\ CASE k \in {"next", "nextid"} ->
+               /\ res' = [res EXCEPT ![t] = ItemOf(b, k = "nextid")]
                /\ pc' = [pc EXCEPT ![t] = "ret"]
-               /\ UNCHANGED <<mon, left>>
-          [] k = "nextid" ->
-               /\ res' = [res EXCEPT ![t] = ItemOf(b, TRUE)]
-               /\ pc' = [pc EXCEPT ![t] = "ret"]
-               /\ UNCHANGED <<mon, left>>
+               /\ OwnStep(t, i, IF b < cf.len THEN <<b>> ELSE << >>, << >>, FALSE)
+               /\ UNCHANGED left
           [] k \in {"chunk", "bnext"} ->
-               /\ res' = [res EXCEPT ![t] = ChunkOf(b, n, op[t].take)]
+               LET r == ChunkOf(b, n, op[t].take)
+                   a == IF r.k = "chunk" THEN r.alen ELSE 0
+                   kk == IF r.k = "chunk" THEN Len(r.vals) ELSE 0 IN
+               /\ res' = [res EXCEPT ![t] = r]
                /\ pc' = [pc EXCEPT ![t] = "ret"]
-               /\ UNCHANGED <<mon, left>>
+               /\ OwnStep(t, i, Span(b, b + kk), Span(b + kk, b + a), FALSE)
+               /\ UNCHANGED left
           [] k \in {"foreach", "eforeach", "fold"} ->
                LET a == IF b < cf.len THEN Min2(n, cf.len - b) ELSE 0
                    stop == IF Mutant = "foreach_stops_short" THEN a < n ELSE a = 0
                IN
-               /\ mon' = [mon EXCEPT ![i] = VisitAll(@, t, b, a, k = "eforeach")]
+               /\ OwnStepM(t, i, VisitAll(mon[i], t, b, a, k = "eforeach"), Span(b, b + a), << >>)
                /\ pc' = [pc EXCEPT ![t] = IF stop THEN "ret" ELSE "fa"]
                /\ res' = [res EXCEPT ![t] =
                             IF k = "fold"
@@ -203,7 +239,7 @@ FetchAdd(t) ==
                LET a == IF b < cf.len THEN 1 ELSE 0
                    l2 == IF left[t] > 0 THEN left[t] - 1 ELSE left[t]
                IN
-               /\ mon' = [mon EXCEPT ![i] = VisitAll(@, t, b, a, k = "idsvalues")]
+               /\ OwnStepM(t, i, VisitAll(mon[i], t, b, a, k = "idsvalues"), Span(b, b + a), << >>)
                /\ left' = [left EXCEPT ![t] = l2]
                /\ pc' = [pc EXCEPT ![t] = IF a = 0 \/ l2 = 0 THEN "ret" ELSE "fa"]
                /\ UNCHANGED res
@@ -221,11 +257,11 @@ Load(t) ==
      /\ CASE k = "len" ->
                /\ res' = [res EXCEPT ![t] = RLen(LenOf(c))]
                /\ pc' = [pc EXCEPT ![t] = "ret"]
-               /\ UNCHANGED <<counter, alive, mon, buf>>
+               /\ UNCHANGED <<counter, alive, mon, buf, own>>
           [] k = "hasmore" ->
                /\ res' = [res EXCEPT ![t] = RHasMore(LenOf(c))]
                /\ pc' = [pc EXCEPT ![t] = "ret"]
-               /\ UNCHANGED <<counter, alive, mon, buf>>
+               /\ UNCHANGED <<counter, alive, mon, buf, own>>
           [] k = "clone" ->
                LET new == Cardinality(Its)
                    c2 == IF Mutant = "clone_restarts" THEN 0 ELSE c IN
@@ -235,17 +271,24 @@ Load(t) ==
                /\ buf' = [u \in DOMAIN buf |-> (new :> 0) @@ buf[u]]
                /\ res' = [res EXCEPT ![t] = [k |-> "cloned", new |-> new]]
                /\ pc' = [pc EXCEPT ![t] = "ret"]
+               /\ UNCHANGED own
           [] k = "intoseq" /\ pc[t] = "ld" ->
                /\ res' = [res EXCEPT ![t] = RSeq(c, op[t].take)]
                \* the vector's Drop runs at the end of into_seq_iter and loads the counter once more;
                \* the array forgets itself after handing out the remainder
                /\ pc' = [pc EXCEPT ![t] = IF cf.kind = "vec" THEN "ld2" ELSE "ret"]
                /\ alive' = alive \ {i}
-               /\ UNCHANGED <<counter, mon, buf>>
-          [] OTHER ->       \* the load of Drop::drop (vec / array), also at the end of into_seq_iter
+               \* the remainder is moved into a vector of its own: the caller consumes a prefix, the rest is
+               \* dropped with the sequential iterator; the array has no buffer, the vector frees it in Drop
+               /\ LET from == Min2(c, cf.len)
+                      kk == Len(RSeq(c, op[t].take).vals) IN
+                  OwnStep(t, i, Span(from, from + kk), Span(from + kk, cf.len), FALSE)
+               /\ UNCHANGED <<counter, buf>>
+          [] OTHER ->       \* the load of Drop::drop (vec / array), also at the end of the vector's into_seq_iter
                /\ pc' = [pc EXCEPT ![t] = "ret"]
                /\ alive' = alive \ {i}
-               /\ UNCHANGED <<counter, mon, buf, res>>
+               /\ OwnStep(t, i, << >>, IF k = "drop" /\ c <= cf.len THEN Span(c, cf.len) ELSE << >>, TRUE)
+               /\ UNCHANGED <<counter, buf, res>>
   /\ Sched(t)
   /\ UNCHANGED <<cf, op, left, nops>>
 
@@ -256,7 +299,7 @@ Store(t) ==
      /\ tk' = [tk EXCEPT ![t] = v]
   /\ pc' = [pc EXCEPT ![t] = "ret"]
   /\ Sched(t)
-  /\ UNCHANGED <<cf, alive, op, left, res, buf, nops, mon>>
+  /\ UNCHANGED <<cf, alive, op, left, res, buf, nops, mon, own>>
 
 Ret(t) ==
   /\ pc[t] = "ret"
@@ -264,13 +307,14 @@ Ret(t) ==
      /\ mon' = IF res[t].k = "cloned" THEN mon ELSE [mon EXCEPT ![i] = MRet(@, t, res[t])]
      /\ alive' = IF op[t].k = "drop" THEN alive \ {i} ELSE alive
   /\ pc' = [pc EXCEPT ![t] = "idle"]
+  /\ own' = [own EXCEPT !.expd[t] = << >>]
   /\ Sched(t)
   /\ UNCHANGED <<cf, counter, op, tk, left, res, buf, nops>>
 
 Stop(t) ==
   /\ pc[t] = "idle"
   /\ pc' = [pc EXCEPT ![t] = "done"]
-  /\ UNCHANGED <<cf, counter, alive, op, tk, left, res, buf, nops, mon, h>>
+  /\ UNCHANGED <<cf, counter, alive, op, tk, left, res, buf, nops, mon, own, h>>
 
 Step(t) == (\E o \in Ops : Call(t, o)) \/ FetchAdd(t) \/ Load(t) \/ Store(t) \/ Ret(t)
 
@@ -286,6 +330,7 @@ InitWith(c) ==
   /\ buf = [t \in 0..c.nt |-> (0 :> 0)]
   /\ nops = [t \in 0..c.nt |-> 0]
   /\ mon = (0 :> MonInit(MonCfg(c)))
+  /\ own = OwnInit(c)
   /\ h = [sched |-> << >>, prog |-> [t \in 0..c.nt |-> << >>]]
 
 \* the same, as an action (start of the next recorded run in trace validation)
@@ -301,6 +346,7 @@ ResetWith(c) ==
   /\ buf' = [t \in 0..c.nt |-> (0 :> 0)]
   /\ nops' = [t \in 0..c.nt |-> 0]
   /\ mon' = (0 :> MonInit(MonCfg(c)))
+  /\ own' = OwnInit(c)
   /\ h' = [sched |-> << >>, prog |-> [t \in 0..c.nt |-> << >>]]
 
 Init == InitWith(CfgOfModel)
@@ -328,6 +374,10 @@ Inv_C10 == HoldsAll("C10")
 Inv_C11 == HoldsAll("C11")
 Inv_C12 == HoldsAll("C12")
 Inv_C19 == HoldsAll("C19")
+\* C08 / C15 on the model: when the consuming iterator is gone (and, known finding E, no skip_to_end was
+\* called) every element has left the storage exactly once and the buffer has been released
+Inv_OwnEnd == (OwnApplies /\ 0 \notin alive /\ ~mon[0].skipCalled /\ \A t \in T : pc[t] \in {"idle", "done"})
+                => (\A p \in DOMAIN own.slot : own.slot[p] = "out" /\ mon[0].moves[p] + mon[0].drops[p] = 1) /\ own.heap = 0
 \* No wrap-around under the precondition of C01/C05 (cumulative requests below the word size)
 Inv_NoWrap == \A i \in Its : counter[i] < MOD \div 2
 \* C09, known-size kinds: a call in flight can always take its next step on its own, whatever the
